@@ -135,7 +135,7 @@ type Num struct {
 
 func (n *Num) String() string {
 	if n.Hole != "" {
-		return "9" + holeDigits(n.Hole)
+		return "900" + n.Hole[1:]
 	}
 	if n.Text != "" {
 		return n.Text
@@ -151,7 +151,7 @@ type Str struct {
 
 func (s *Str) String() string {
 	if s.Hole != "" {
-		return "'\x01" + s.Hole + "'"
+		return "'#" + s.Hole + "'"
 	}
 	if strings.Contains(s.V, "'") {
 		return "\"" + s.V + "\""
@@ -209,4 +209,48 @@ func AbsP(steps ...Step) *Path {
 		p.Seps = append(p.Seps, "/")
 	}
 	return p
+}
+
+// BindHoles turns the marker literals 9001..9009 and '#S1'..'#S9' into holes.
+func BindHoles(e Expr) Expr {
+	switch x := e.(type) {
+	case *Num:
+		if x.Hole == "" && x.V >= 9001 && x.V <= 9009 && x.V == float64(int(x.V)) {
+			return &Num{Hole: fmt.Sprintf("h%d", int(x.V)-9000)}
+		}
+	case *Str:
+		if x.Hole == "" && len(x.V) == 3 && x.V[0] == '#' && x.V[1] == 'S' {
+			return &Str{Hole: x.V[1:]}
+		}
+	case *Neg:
+		x.X = BindHoles(x.X)
+	case *Binary:
+		x.L, x.R = BindHoles(x.L), BindHoles(x.R)
+	case *Call:
+		for i := range x.Args {
+			x.Args[i] = BindHoles(x.Args[i])
+		}
+	case *Group:
+		x.X = BindHoles(x.X)
+		for i := range x.Preds {
+			x.Preds[i] = BindHoles(x.Preds[i])
+		}
+	case *Path:
+		if x.Base != nil {
+			x.Base = BindHoles(x.Base)
+		}
+		for i := range x.Steps {
+			bindStep(&x.Steps[i])
+		}
+	}
+	return e
+}
+
+func bindStep(st *Step) {
+	for i := range st.Preds {
+		st.Preds[i] = BindHoles(st.Preds[i])
+	}
+	for i := range st.Seq {
+		bindStep(&st.Seq[i])
+	}
 }
